@@ -1,4 +1,6 @@
 """C17 — traceback line numbers: every located node gets its position from a model or node inside the current form."""
+CANON = True
+
 import ast
 
 from .. import astoblig, compq, pyq, readerq
